@@ -149,7 +149,7 @@ def g_slice(rng, size, allow_empty=True):
     return {"k": "slice", "a": a, "b": b, "s": rng.choice([None, None, 1, 1, 2, 3])}
 
 
-def g_shape(rng, N, hi=4):
+def g_shape(rng, N, hi=5):
     return [rng.choice([1, 2, 3, 3, 4, 5][:hi + 1]) for _ in range(N)]
 
 
@@ -164,6 +164,16 @@ def g_tensor(rng, shape, kinds=None, special=None):
 
 
 NOU = [("tt", False), ("cp", False)]
+
+
+def g_nou(rng, N):
+    """Tucker-free formats; pure TT (the only class on which dense/compressed values are honoured) over-represented"""
+    r = rng.random()
+    if r < 0.35:
+        return [("tt", False)] * N
+    if r < 0.45:
+        return [("cp", False)] * N
+    return [rng.choice(NOU) for _ in range(N)]
 
 
 def g_value(rng, sel, vkind):
@@ -257,6 +267,19 @@ class Prop:
                     np_key(shape, s["key"]["entries"])
                 except SpecError as e:
                     bad = str(e); oob = oob or str(e) == "int-out-of-range"
+            adj = "none"      # does a non-scalar value meet integers in the key (the value-shape adjustment code)?
+            for s in steps:
+                if s["vkind"] in ("np", "torch", "tn"):
+                    try:
+                        nk = np_key(shape, s["key"]["entries"])
+                    except SpecError:
+                        continue
+                    ints = [n for n, k in enumerate(nk) if isinstance(k, int)]
+                    if any(isinstance(k, slice) for n in ints for k in nk[n + 1:]):
+                        adj = "mid"
+                    elif ints and adj == "none":
+                        adj = "trailing"
+            tags.update(value_adjust=adj)
             tags.update(op="setitem", fmt=tsig(tj), N=len(tj["modes"]), nsteps=len(steps), stream=stream, default_dtype=dd,
                         hasU=any(m["U"] is not None for m in tj["modes"]),
                         hasCP=any(m["kind"] == "cp" for m in tj["modes"]),
@@ -278,14 +301,14 @@ class Prop:
         for N in (1, 2, 3):
             combos = [(f, ks) for f in itertools.product(KINDS, repeat=N) for ks in itertools.product("ijfs", repeat=N)]
             if N == 3:
-                combos = rng.sample(combos, 500 if quick else 4096)
+                combos = rng.sample(combos, 1500 if quick else 4096)
             for f, ks in combos:
                 hasU = any(k[1] for k in f)
                 vks = VKINDS if not hasU else rng.sample(VKINDS, 3)
-                if N >= 2 and quick:
-                    vks = rng.sample(vks, 3 if N == 2 else 1) if not hasU else rng.sample(vks, 1)
-                elif N == 3:
-                    vks = rng.sample(vks, 3)
+                if N == 3:
+                    vks = rng.sample(vks, 1 if quick else 3)
+                elif N == 2 and quick:
+                    vks = rng.sample(vks, 5) if not hasU else rng.sample(vks, 2)
                 for vk in vks:
                     shape = g_shape(rng, N, hi=3)
                     tj = g_tensor(rng, shape, list(f))
@@ -298,50 +321,75 @@ class Prop:
                     for ell in (True, False):
                         if not ell and b:
                             continue
-                        for rep in range(6 if quick else 40):
+                        for rep in range(12 if quick else 60):
                             shape = g_shape(rng, N)
-                            tj = g_tensor(rng, shape, [rng.choice(NOU) for _ in range(N)])
+                            tj = g_tensor(rng, shape, g_nou(rng, N))
                             per = [g_int(rng, s) if rng.random() < 0.4 else g_slice(rng, s) for s in shape]
                             ents = per[:a] + ([ELL] if ell else []) + (per[N - b:] if b else [])
                             mk(tj, [g_step(rng, shape, ents, rng.choice(VKINDS))], "grammar", lead=a, trail=b, ell=ell)
         for f in KINDS:
-            for rep in range(6 if quick else 40):
+            for rep in range(20 if quick else 100):
                 N = rng.randint(1, 3); shape = g_shape(rng, N)
                 kinds = [f] + [rng.choice(NOU) for _ in range(N - 1)]
                 e = rng.choice([g_int(rng, shape[0]), g_slice(rng, shape[0]), ELL])
                 mk(g_tensor(rng, shape, kinds), [g_step(rng, shape, [e], rng.choice(VKINDS), top="bare")], "bare")
         # empty regions
-        for rep in range(40 if quick else 300):
+        for rep in range(100 if quick else 600):
             N = rng.randint(1, 3); shape = g_shape(rng, N)
             ents = [g_slice(rng, s) for s in shape]; p = rng.randrange(N)
             lo = rng.randint(0, shape[p])
             ents[p] = {"k": "slice", "a": lo, "b": rng.randint(0, lo), "s": None}
-            mk(g_tensor(rng, shape, [rng.choice(NOU) for _ in range(N)]),
+            mk(g_tensor(rng, shape, g_nou(rng, N)),
                [g_step(rng, shape, ents, rng.choice(["int", "float", "np", "torch"]))], "empty")
+        # stepped slices: every (size, step, start) on TT and CP modes
+        for size in (2, 3, 4, 5):
+            for step in (2, 3):
+                for start in [None] + list(range(-size, size)):
+                    N = rng.choice([1, 2, 3]); p = rng.randrange(N)
+                    shape = g_shape(rng, N, hi=3); shape[p] = size
+                    ents = [g_int(rng, s) if rng.random() < 0.3 else g_slice(rng, s, allow_empty=False) for s in shape]
+                    ents[p] = {"k": "slice", "a": start, "b": rng.choice([None, size, size - 1, -1]), "s": step}
+                    mk(g_tensor(rng, shape, g_nou(rng, N)), [g_step(rng, shape, ents, rng.choice(VKINDS[:9]))], "steps",
+                       size=size, step=step)
+        # integers in the key together with non-scalar values (value-shape adjustment code), pure TT, N=2..4
+        for N in (2, 3, 4):
+            pats = [pt for pt in itertools.product("i1s", repeat=N) if "i" in pt and pt.count("i") < N]
+            for pt in pats:
+                for vk in (["tn-tt"] if quick else ["tn-tt", "np", "tn-mix"]):
+                    shape = [rng.choice([2, 3, 4]) for _ in range(N)]
+                    ents = []
+                    for c, sz in zip(pt, shape):
+                        if c == "i":
+                            ents.append(g_int(rng, sz))
+                        elif c == "1":
+                            lo = rng.randrange(sz); ents.append({"k": "slice", "a": lo, "b": lo + 1, "s": None})
+                        else:
+                            lo = rng.randint(0, sz - 2); ents.append({"k": "slice", "a": lo, "b": rng.randint(lo + 2, sz), "s": None})
+                    mk(g_tensor(rng, shape, [("tt", False)] * N), [g_step(rng, shape, ents, vk)], "int+array-value")
         # (c) histories
         def history(shape, n, vks=None, styles=None):
             return [g_step(rng, shape, g_entries(rng, shape, rng.choice(styles) if styles else None),
                            rng.choice(vks or VKINDS[:9])) for _ in range(n)]
         for special in (None, "rank1", "bigrank", "zero"):
-            n = (500 if quick else 5000) if special is None else (50 if quick else 400)
+            n = (2500 if quick else 20000) if special is None else (200 if quick else 1500)
             for _ in range(n):
                 N = rng.choice([1, 2, 3, 3, 4]); shape = g_shape(rng, N, hi=4 if N < 4 else 3)
-                tj = g_tensor(rng, shape, [rng.choice(NOU) for _ in range(N)], special)
+                tj = g_tensor(rng, shape, g_nou(rng, N), special)
                 r = rng.random()
                 vks = ["int", "float", "np64", "torch0d"] if r < 0.4 else None
                 mk(tj, history(shape, rng.randint(2, 5), vks, ["friendly", "full", "friendly", "ell", "partial"]),
                    "history", special=special or "")
         # histories on tensors with Tucker factors (open defect D7) and with compressed values carrying factors
-        for _ in range(60 if quick else 600):
+        for _ in range(150 if quick else 1000):
             N = rng.choice([1, 2, 3]); shape = g_shape(rng, N)
             kinds = [rng.choice(KINDS) for _ in range(N)]
             if not any(k[1] for k in kinds):
                 kinds[rng.randrange(N)] = rng.choice([("tt", True), ("cp", True)])
             mk(g_tensor(rng, shape, kinds), history(shape, rng.randint(1, 3)), "history-U")
-        for _ in range(60 if quick else 600):
+        for _ in range(150 if quick else 1000):
             N = rng.choice([1, 2, 3]); shape = g_shape(rng, N)
             st = history(shape, rng.randint(1, 3), ["tn-U", "tn-U", "int"], ["friendly", "full"])
-            mk(g_tensor(rng, shape, [rng.choice(NOU) for _ in range(N)]), st, "history-valueU")
+            mk(g_tensor(rng, shape, g_nou(rng, N)), st, "history-valueU")
         # (d) malformed steps inside histories: valid, malformed, valid
         def malformed(kind, shape):
             N = len(shape)
@@ -387,9 +435,9 @@ class Prop:
                 return {"key": {"top": "tuple", "entries": per}, "vkind": "tn" if vk.startswith("tn") else vk, "vsub": vk,
                         "value": v, "vbad": vbad}
         for kind in ("int-oob", "too-many", "ell2", "value-shape"):
-            for _ in range(80 if quick else 600):
+            for _ in range(250 if quick else 1500):
                 N = rng.choice([1, 2, 3, 4]); shape = g_shape(rng, N, hi=4 if N < 4 else 3)
-                tj = g_tensor(rng, shape, [rng.choice(NOU) for _ in range(N)])
+                tj = g_tensor(rng, shape, g_nou(rng, N))
                 m = malformed(kind, shape)
                 if m is None:
                     continue
@@ -400,7 +448,7 @@ class Prop:
         # (e) default dtype float32
         sub = [c for c in cases if c["tags"]["stream"] in ("lattice", "history", "grammar") and not c["tags"]["hasU"]
                and not c["tags"]["value_hasU"]]
-        for c in rng.sample(sub, min(len(sub), 200 if quick else 2000)):
+        for c in rng.sample(sub, min(len(sub), 500 if quick else 3000)):
             c2 = json.loads(json.dumps(c)); c2["default_dtype"] = "float32"; c2["tags"]["default_dtype"] = "float32"
             c2["big"] = True
             cases.append(c2)
@@ -483,6 +531,15 @@ class Prop:
         return a is not None and a == b
 
     def agree(self, case, res, exp):
+        ok, msg = self._agree(case, res, exp)
+        if ok and res.get("ok"):            # outcome statistics for the evidence file (see extra())
+            st = self.__dict__.setdefault("stats", {})
+            for s, rec in zip(case["steps"], res["steps"]):
+                k = ("raised-unchanged:" + rec.get("err", "?") if rec["raised"] else "honoured") + ":" + s.get("vsub", s["vkind"])
+                st[k] = st.get(k, 0) + 1
+        return ok, msg
+
+    def _agree(self, case, res, exp):
         if not res.get("ok") or "steps" not in res:
             return False, "harness could not run the history: %s %s" % (res.get("err"), res.get("msg"))
         case = self._case(case)
@@ -550,4 +607,5 @@ class Prop:
         return cur
 
     def extra(self, tier, rng):
-        return {"problems": [], "violations": [], "coverage": {}}
+        return {"problems": [], "violations": [],
+                "coverage": {"step_outcomes_in_passing_cases": dict(sorted(self.__dict__.get("stats", {}).items()))}}
